@@ -24,7 +24,9 @@ def loop():
     return _loop
 
 
-def make_handler(hid, params, ty, log):
+def make_handler(hid, params, ty, log, classes=None):
+    """`classes` (a dict): register bound methods of controller objects instead of plain functions - handlers with the same signature
+    are methods of instances of one class, as in an application that builds one controller per tenant / per connection"""
     from rsocket.payload import Payload
     from rsocket.extensions.composite_metadata import CompositeMetadata
     names, sig = [], []
@@ -57,6 +59,14 @@ def make_handler(hid, params, ty, log):
             return ('PUBLISHER', 'SUBSCRIBER')
         return None
     env['_ran'] = _ran
+    if classes is not None:
+        key = (ty, json.dumps(params))
+        if key not in classes:
+            src = 'class K:\n    def __init__(self, hid):\n        self.hid = hid\n    async def h(%s):\n        return _ran(self.hid, [%s])\n' % (
+                ', '.join(['self'] + sig), ', '.join(names))
+            exec(src, env)
+            classes[key] = env['K']
+        return classes[key](hid).h
     exec(src, env)
     return env['h']
 
@@ -72,7 +82,7 @@ class C19(Prop):
                   'scripted one in the correspondence.')
     design_ref = '§5 C19'
     rule = ('route tables: every subset of the five routable types registered for a route, independently every subset with an unknown-route handler (exhaustive 32x32 on a '
-            'core request set) plus random tables with several routes and generated handler signatures; requests of all five types, route tags that are registered, unknown, outside ASCII (half of the requests name their route through helpers.route() with a str), or near misses of a registered name (white-space padding, other case, prefix, extension), with the route entry first/middle/last/absent/'
+            'core request set) plus random tables with several routes and generated handler signatures (plain functions, or - a third of the tables - bound methods of several instances of one controller class); requests of all five types, route tags that are registered, unknown, outside ASCII (half of the requests name their route through helpers.route() with a str), or near misses of a registered name (white-space padding, other case, prefix, extension), with the route entry first/middle/last/absent/'
             'empty/duplicated, authentication none/accepted/rejected (simple and bearer), verifier configured or not (the scripted verifier suspends once), unparseable metadata; half of the random cases are preceded by 1..3 earlier requests on the same handler instance (same or other credentials / type / route), the last of them optionally still in flight when the judged request arrives; non-trivial = verifier configured or '
             'route not registered for the type; distinct = distinct (table, request)')
     assumptions = ['handlers are coroutine functions registered through the RequestRouter decorators']
@@ -148,6 +158,14 @@ class C19(Prop):
                 blob = rng.choice(['ff', 'fe0000', '00', 'fe00000901'])
             case = {'ty': rng.choice(TYPES), 'ver': rng.choice(['none', 'std', 'std']), 'routes': routes, 'unknown': unknown, 'items': items, 'blob': blob,
                     'ver_obj': rng.random() < 0.3}
+            if rng.random() < 0.3:
+                # handlers are bound methods of controller objects: all routes of one interaction type are the same method of different instances
+                case['bound'] = True
+                first = {}
+                for r in routes:
+                    r[3] = first.setdefault(r[0], r[3])
+                for u in unknown:
+                    u[2] = first.setdefault(u[0], u[2])
             # earlier requests on the same connection (same handler instance) must not influence this one: same or other credentials,
             # same or other type / route; optionally still in flight (its verifier call suspended) when the judged request arrives
             if rng.random() < 0.5:
@@ -195,10 +213,11 @@ class C19(Prop):
         reg = {'r': router.response, 's': router.stream, 'c': router.channel, 'f': router.fire_and_forget, 'm': router.metadata_push}
         unk = {'r': router.response_unknown, 's': router.stream_unknown, 'c': router.channel_unknown, 'f': router.fire_and_forget_unknown,
                'm': router.metadata_push_unknown}
+        classes = {} if case.get('bound') else None
         for t, rt, hid, ps in case['routes']:
-            reg[t](bytes.fromhex(rt).decode())(make_handler(hid, ps, t, log))
+            reg[t](bytes.fromhex(rt).decode())(make_handler(hid, ps, t, log, classes))
         for t, hid, ps in case['unknown']:
-            unk[t]()(make_handler(hid, ps, t, log))
+            unk[t]()(make_handler(hid, ps, t, log, classes))
         verifier_calls = []
 
         async def verifier(route, auth):
